@@ -108,7 +108,7 @@ def arrayTemplateVar (c : Coll) (template : Var) (sub : Nat) : Var :=
     dataType := template.dataType, unit := template.unit, factor := template.factor,
     min := template.min, max := template.max, default := template.default,
     accessType := template.accessType, description := template.description,
-    storage := template.storage }
+    storage := template.storage, pdoMappable := template.pdoMappable }
 
 /-- `coll[key]`; `none` = KeyError -/
 def Coll.getItem (c : Coll) : Key → Option Var
